@@ -126,9 +126,13 @@ require('./__samlang_loader__.js')(binary).{}();
 #[cfg(samlang_verif)]
 pub mod verif {
   pub use crate::hir_lowering::verif_compile_sources_to_hir as compile_sources_to_hir;
+  pub use crate::hir_lowering::verif_compile_sources_to_mir_before_dedup as compile_sources_to_mir_before_dedup;
   pub use crate::hir_lowering::verif_compile_sources_to_mir_before_rewrites as compile_sources_to_mir_before_rewrites;
   pub use crate::hir_lowering::verif_constant_param_elimination as constant_param_elimination;
   pub use crate::hir_lowering::verif_tail_rec_rewrite as tail_rec_rewrite;
+  pub use crate::hir_lowering::verif_type_deduplication as type_deduplication;
+  pub use crate::lir_lowering::verif::compile_mir_to_lir_before_elimination;
+  pub use crate::lir_lowering::verif::lir_unused_name_elimination;
 }
 
 #[cfg(test)]
